@@ -884,6 +884,13 @@ func (x *Exec) enterBlock(st *State, fr *Frame) bool {
 	x.havocLoop(st, fr, lp)
 	x.assumeInvariants(st, fr, lp, ls)
 	fr.open[lp] = true
+	// the state at the head of the iteration, for head(...) in hints and invariants checked at the back edge
+	if st.heads == nil {
+		st.heads = map[*Loop]*State{}
+	}
+	hs := st.snapshot()
+	hs.frames = []*Frame{fr.clone()}
+	st.heads[lp] = hs
 	return false
 }
 
